@@ -244,7 +244,9 @@ def matrix_digits(ctx, rep):
     loops = util.for_loops(ctx, se)
     good = False
     why = "no whole-slice loop found"
-    if len(loops) == 1:
+    if len(loops) == 1 and not loops[0]["only_exit"]:
+        why = "the fill loop can be left before the last element (break / return inside)"
+    elif len(loops) == 1:
         lp = loops[0]
         whole = strip(lp["init"] or ("x",)) == ("param", 1)
         ini = strip(lp["init"] or ("x",))
@@ -269,7 +271,7 @@ def matrix_digits(ctx, rep):
                     why = "element written with %s" % show(val, maxdepth=3)
             else:
                 why = "%d stores to the element per iteration" % len(writes)
-    if len(loops) == 1 and not good:
+    if len(loops) == 1 and not good and loops[0]["only_exit"]:
         # for (b, digit) in buf.iter_mut().zip(die.sample_iter(thread_rng())) { *b = digit }: `zip`
         # asks the slice first and stops when it is exhausted, so exactly one sample is drawn per
         # element; every sample of the stream is a fresh draw of the die from the generator
